@@ -8,6 +8,8 @@ modes:
   shift      three comment lines inserted after every `def` line and at the top of every file (all line numbers move)
   log        `trace.mutter("enter <qualname>")`-style no-op statement (a bare string expression) inserted as the first
              statement of every function (statement indices move; blocks get one more statement)
+  messages   the text of every raised exception / logged message changed
+  swapelse   two-armed ifs with simple arms rewritten as `if not c: B else: A`
   rename     every function-local variable whose name is assigned in exactly one function of the module and is at least
              6 characters long gets a `_x` suffix (checks must not depend on incidental local names) — reported
              separately, because some rules deliberately name protocol-relevant locals
@@ -133,7 +135,43 @@ def t_rename(src, minlen=3):
     return ast.unparse(tree) + "\n"
 
 
-MODES = {"reformat": t_reformat, "shift": t_shift, "log": t_log, "rename": t_rename}
+def t_messages(src):
+    """Human-readable texts changed: the first string argument of every raised exception and of every
+    mutter/note/warning/gettext/show_error call gets a suffix (f-strings: a literal part is appended)."""
+    tree = ast.parse(src)
+    LOGS = {"mutter", "note", "warning", "gettext", "show_error", "show_warning", "log_exception_quietly"}
+
+    def bump(call):
+        if call.args:
+            a = call.args[0]
+            if isinstance(a, ast.Constant) and isinstance(a.value, str):
+                a.value = a.value + " (n)"
+            elif isinstance(a, ast.JoinedStr):
+                a.values.append(ast.Constant(value=" (n)"))
+
+    for n in ast.walk(tree):
+        if isinstance(n, ast.Raise) and isinstance(n.exc, ast.Call):
+            bump(n.exc)
+        elif isinstance(n, ast.Call):
+            f = n.func
+            nm = f.attr if isinstance(f, ast.Attribute) else (f.id if isinstance(f, ast.Name) else "")
+            if nm in LOGS:
+                bump(n)
+    return ast.unparse(ast.fix_missing_locations(tree)) + "\n"
+
+
+def t_swapelse(src):
+    """`if c: A else: B` (both non-empty, no elif) rewritten as `if not (c): B else: A` — same behaviour, other
+    shape; only statements whose two branches are single simple statements are rewritten (keeps the edit local)."""
+    tree = ast.parse(src)
+    for n in ast.walk(tree):
+        if isinstance(n, ast.If) and n.orelse and not (len(n.orelse) == 1 and isinstance(n.orelse[0], ast.If)) and len(n.body) == 1 and len(n.orelse) == 1 and not isinstance(n.body[0], (ast.If, ast.For, ast.While, ast.Try, ast.With)) and not isinstance(n.orelse[0], (ast.If, ast.For, ast.While, ast.Try, ast.With)):
+            n.test = ast.UnaryOp(op=ast.Not(), operand=n.test)
+            n.body, n.orelse = n.orelse, n.body
+    return ast.unparse(ast.fix_missing_locations(tree)) + "\n"
+
+
+MODES = {"reformat": t_reformat, "shift": t_shift, "log": t_log, "rename": t_rename, "messages": t_messages, "swapelse": t_swapelse}
 
 
 def main():
